@@ -115,6 +115,57 @@ func c12Scoping(w *run.Worker) {
 	}
 }
 
+// c12Shadowing: a name defined at the top and defined again in a nested block. Inside that
+// block (and below it) the inner definition is the one in force; once the block is left the outer one
+// is again — for grok and for composite definitions made afterwards.
+func c12Shadowing(w *run.Worker) {
+	S, Id := rt.Str, rt.Id
+	outer := func() *rt.Node { return rt.Call("add_pattern", S("pa"), S("[a-z]+")) }
+	shadow := func() *rt.Node { return rt.Call("add_pattern", S("pa"), S("[0-9]+")) }
+	users := []func() []*rt.Node{
+		func() []*rt.Node { return []*rt.Node{rt.Call("p", rt.Call("grok", Id("_"), S("%{pa:x}")), Id("x"))} },
+		func() []*rt.Node {
+			return []*rt.Node{rt.Call("add_pattern", S("pair"), S("%{pa:y:str}")), rt.Call("p", rt.Call("grok", Id("_"), S("%{pair}")), Id("y"))}
+		},
+		func() []*rt.Node { return []*rt.Node{rt.Call("p", rt.Call("grok", Id("_"), S("^%{pa:z} %{INT:n:int}$")), Id("z"), Id("n"))} },
+	}
+	pt := PointSpec{Meas: "m", Fields: map[string]any{"message": "hello 42"}}
+	for ss := 0; ss < c12Slots; ss++ {
+		for gs := 0; gs < c12Slots; gs++ {
+			for ui := range users {
+				for _, userFirst := range []bool{false, true} {
+					for _, twice := range []bool{false, true} {
+						if !w.Take() {
+							continue
+						}
+						var slot [c12Slots][]*rt.Node
+						slot[0] = append(slot[0], outer())
+						if userFirst {
+							slot[gs] = append(slot[gs], users[ui]()...)
+						}
+						slot[ss] = append(slot[ss], shadow())
+						if !userFirst {
+							slot[gs] = append(slot[gs], users[ui]()...)
+						}
+						if twice {
+							// and once more at the very end, after every block has been left
+							slot[c12Slots-1] = append(slot[c12Slots-1], users[0]()...)
+						}
+						c1, c2 := true, true
+						if gs == 3 || ss == 3 {
+							c2 = false
+						}
+						if gs == 5 || ss == 5 {
+							c1 = false
+						}
+						c12Exec(w, "shadowing", c12Skeleton(slot, c1, c2), pt, "")
+					}
+				}
+			}
+		}
+	}
+}
+
 // ---- (2) typed captures, trim_space, subjects ----------------------------------
 
 func c12Typed(w *run.Worker) {
@@ -313,6 +364,27 @@ func c12Time(w *run.Worker) {
 			}
 		}
 	}
+	// every numeric label of the documented table: the DST-free ones with a January date, the southern ones
+	// (which are on their standard offset then) with a July date
+	for _, z := range []string{"+0", "+1", "+2", "+3", "+3:30", "+4", "+4:30", "+5", "+5:30", "+5:45", "+6", "+6:30", "+7", "+8", "+8:45", "+9", "+9:30",
+		"-1", "-2", "-3", "-3:30", "-5", "-6", "-7", "-8", "-9", "-10", "-11"} {
+		for _, b := range []string{"2021-01-02 03:04:05", "171113 14:14:20"} {
+			if !w.Take() {
+				continue
+			}
+			z := z
+			run1(b, &z, sitField)
+		}
+	}
+	for _, z := range []string{"-4", "+10", "+10:30", "+11", "+12", "+12:45", "+13", "+14", "-9:30", "-10", "+9:30", "+8:45"} {
+		for _, b := range []string{"2021-07-15 12:00:00", "2022-06-30 23:59:59.5", "15 Jul 2023 01:02:03.000"} {
+			if !w.Take() {
+				continue
+			}
+			z := z
+			run1(b, &z, sitVar)
+		}
+	}
 	// named zones with a summer date (daylight saving time in effect where the zone has it)
 	for _, b := range []string{"2021-07-15 12:00:00", "2021-03-28 01:30:00", "2021-10-31 01:30:00"} {
 		for _, z := range []string{"UTC", "Europe/London", "America/New_York", "Asia/Shanghai", "Asia/Kolkata", "Etc/GMT+5", "Local", "utc"} {
@@ -376,6 +448,9 @@ func c12XMLSQL(w *run.Worker) {
 	docs := []string{
 		`<a><b>1</b><b>2</b></a>`, `<a x="attr"><b> padded </b><c><d>deep</d></c></a>`, `<?xml version="1.0"?><root><item id="7">seven</item></root>`,
 		`<a><b/></a>`, `<a>text<b>inner</b>tail</a>`, `not xml`, `<a><b>unclosed</a>`, ``, `<a xmlns:n="u"><n:b>ns</n:b></a>`,
+		// not well-formed in ways a lenient decoder would tolerate: the subject must be left alone
+		`<a><b>x & y</b></a>`, `<a><b>x&nbsp;y</b></a>`, `<a x=1><b>2</b></a>`, `<a><b checked>3</b></a>`, `<a><b>4</c></a>`, `<a><b>5</b></a><a><b>6</b></a>`, `<a><b>7</b>`,
+		`<a><b>&amp;&#65;&lt;</b></a>`, `<a><![CDATA[<b>8</b>]]><b>9</b></a>`, "<a>\n <b>\n  10\n </b>\n</a>", `<A><B>upper</B></A>`,
 	}
 	queries := []string{"/a/b", "/a/b[2]", "//d", "/a/@x", "/a/b/text()", "/root/item[@id='7']", "/nomatch", "//*", "/a", "count(/a/b)", "/a/b[", "", "//b[last()]"}
 	dests := []nodeFn{func() *rt.Node { return Id("dst") }, func() *rt.Node { return S("dst") }, func() *rt.Node { return rt.Attr(Id("dst"), Id("sub")) }, func() *rt.Node { return Id("k") }}
@@ -466,6 +541,7 @@ func c12Run(w *run.Worker) {
 	c12Time(w)
 	c12Typed(w)
 	c12Scoping(w)
+	c12Shadowing(w)
 }
 
 func c12Replay(raw json.RawMessage) (bool, string) {
@@ -494,10 +570,10 @@ func init() {
 	run.Register(&run.Check{
 		ID:    "C12",
 		Level: "model_checking",
-		Rule: "(1) every placement of up to 3 add_pattern definitions (one referring to the other two) and a grok call using a local, a dependent or a global pattern over the 8 slots of a 3-level block skeleton (top, if, nested if/else, else, for body, after), definition before or after the use: load verdict and run-time captures; " +
+		Rule: "(1) every placement of up to 3 add_pattern definitions (one referring to the other two) and a grok call using a local, a dependent or a global pattern over the 8 slots of a 3-level block skeleton (top, if, nested if/else, else, for body, after), definition before or after the use: load verdict and run-time captures; a name defined at the top and again in each of the 8 slots, used by grok / a composite definition in each slot, before or after the inner definition and once more after all blocks; " +
 			"(2) 14 patterns (all capture types, convertible and inconvertible text, pattern capturing into its own subject) x trim_space {absent,true,false} x 6 subject situations x 14 subject values; " +
-			"(3) default_time on the 66 documented layouts + 6 house layouts + non-timestamps, every house layout written for 5 instants x {padded, unpadded day/hour} x 6 numeric zones (positive, negative, half-hour) x 3 zone arguments, 4 base timestamps x 21 zone arguments (fixed-offset labels, IANA names, invalid) x subject situations; datetime over 18 formats x 4 precisions x 13 epoch values x 3 situations; " +
-			"(4) xml: 9 documents x 13 XPath queries x 4 destination spellings x subject situations; (5) sql_cover: 20 strings x 5 situations, all ordered pairs of 6 backslash-bearing statements in one run; oracle: whole final point incl. time, probe trace (grok's boolean), load verdict",
+			"(3) default_time on the 66 documented layouts + 6 house layouts + non-timestamps, every house layout written for 5 instants x {padded, unpadded day/hour} x 6 numeric zones (positive, negative, half-hour) x 3 zone arguments, 4 base timestamps x 21 zone arguments (fixed-offset labels, IANA names, invalid) x subject situations, every numeric label of the documented table (DST-free ones in January, southern ones in July); datetime over 18 formats x 4 precisions x 13 epoch values x 3 situations; " +
+			"(4) xml: 20 documents (well-formed, and malformed in ways a lenient decoder tolerates) x 13 XPath queries x 4 destination spellings x subject situations; (5) sql_cover: 20 strings x 5 situations, all ordered pairs of 6 backslash-bearing statements in one run; oracle: whole final point incl. time, probe trace (grok's boolean), load verdict",
 		Assumptions: []string{"grok, xmlquery/xpath, dateparse, time, obfuscate are the trusted engines, called directly by the reference", "zone labels are checked against fixed offsets for DST-free zones / winter dates; DST-in-January labels, the CST label and year-less layouts are unspecified cells; IANA names incl. UTC are also run with summer and DST-switch dates", "the text of the failure note after the prefix `time convert failed` is not compared"},
 		Run:            c12Run,
 		Replay:         c12Replay,
